@@ -923,7 +923,59 @@ pub fn run(ctx: &Ctx) -> Result<Report, String> {
     let mut loop_programs = explore_loop(ctx, &alpha, &loop_grid, 3, &viol);
     loop_programs += explore_loop(ctx, &alpha, &loop_grid2, ctx.tier.pick(2, 3), &viol);
     capped |= ctx.over_cap();
+    // logging switched on (the renderer, the glyph rasteriser and the render loop log through `tracing`): two-frame
+    // histories over a grid with a glyph and an image, and the two-call run_render programs, on this thread under a
+    // subscriber that formats every log line; the verdicts must be those of the silent runs
+    let mut logged = 0u64;
+    crate::engine::logging::with_logging(|| {
+        let g = Grid { h: 1, w: 3, kinds: vec![0, 2, 7, 10] };
+        let surfs = surfaces(&g);
+        for a in 0..surfs.len() as u32 {
+            for b in 0..surfs.len() as u32 {
+                for hist in [vec![Op::Frame(a), Op::Frame(b)], vec![Op::Frame(a), Op::Clear, Op::Frame(b)]] {
+                    logged += 1;
+                    match catch(|| step(&alpha, &g, &surfs, &hist, true)) {
+                        Ok((_, problems)) => {
+                            for (k, d) in problems {
+                                let mut w = history_json(&g, &surfs, &hist);
+                                w["logging"] = json!(true);
+                                viol.add(format!("logging:{k}"), format!("with a tracing subscriber listening: {d}"), w);
+                            }
+                        }
+                        Err(p) => {
+                            let mut w = history_json(&g, &surfs, &hist);
+                            w["logging"] = json!(true);
+                            viol.add(format!("logging:{}", p.key()), format!("with a tracing subscriber listening: panicked: {} ({}:{})", p.message, p.file, p.line), w);
+                        }
+                    }
+                }
+            }
+        }
+        let surfs = surfaces(&loop_grid);
+        for s0 in 0..surfs.len() as u32 {
+            for a in LOOP_ACTIONS {
+                for e in LOOP_EVENTS {
+                    for s1 in 0..surfs.len() as u32 {
+                        logged += 1;
+                        let prog = [LoopStep { surf: s0, action: a, then: e }, LoopStep { surf: s1, action: LoopAction::Wait, then: LoopEvent::Timeout }];
+                        let res = catch(|| loop_program(&alpha, &loop_grid, &surfs, &prog));
+                        let mut w = loop_json(&loop_grid, &surfs, &prog);
+                        w["logging"] = json!(true);
+                        match res {
+                            Ok(problems) => {
+                                for (k, d) in problems {
+                                    viol.add(format!("logging:{k}"), format!("with a tracing subscriber listening: {d}"), w.clone());
+                                }
+                            }
+                            Err(p) => viol.add(format!("logging:loop:{}", p.key()), format!("with a tracing subscriber listening: run_render panicked: {} ({}:{})", p.message, p.file, p.line), w),
+                        }
+                    }
+                }
+            }
+        }
+    });
     let mut r = Report::new("model_checking");
+    r.set("histories_and_programs_with_logging_on", logged);
     r.set("run_render_programs", json!({"programs": loop_programs, "what": "programs of up to 3 handler calls (surface x Wait / WaitNoFrame / Sleep(0) x next event timeout / wake / resize / more than 32 frames pending) through Terminal::run_render on a scripted terminal; after every rendered frame the screen must equal a from-scratch repaint", "grids": ["1x2 over blank, a/red, blank/red, img1x1", "2x2 over blank, img1x1"]}));
     r.set("states", states)
         .set("transitions", transitions)
@@ -943,6 +995,11 @@ pub fn run(ctx: &Ctx) -> Result<Report, String> {
 }
 
 pub fn replay(w: &Value) -> Result<(bool, String), String> {
+    if w["logging"] == json!(true) {
+        let mut w2 = w.clone();
+        w2["logging"] = json!(false);
+        return crate::engine::logging::with_logging(|| replay(&w2));
+    }
     let alpha = Alphabet::new();
     let gh = w["grid"][0].as_u64().ok_or("grid")? as usize;
     let gw = w["grid"][1].as_u64().ok_or("grid")? as usize;
